@@ -11,8 +11,8 @@ GENERATORS = {}
 SOURCES = ['sqlobject/dbconnection.py', 'sqlobject/sqlite/sqliteconnection.py', 'sqlobject/main.py', 'sqlobject/cache.py']
 COQ_HEADER = '''From Coq Require Import List ZArith Bool. Import ListNotations. Open Scope Z_scope.
 From Lib Require Import CorrLib. From Model Require Import Txn Hub. From Corr Require Import C08.'''
-COQ_CASE_TYPE = 'case'
-COQ_AGREE = 'agree'
+COQ_CASE_TYPE = 'anycase'
+COQ_AGREE = 'agree_any'
 COQ_SHARD = 200
 REPLAY_KIND = 'input'
 EXHAUSTIVE = {'quick': False, 'thorough': False}
@@ -31,13 +31,26 @@ RULE = ('programs: 1..3 threads, each with a HISTORY on a FILE-backed sqlite dat
         'connection) and mixed (some threads without a connection of their own fall back to the process one; at most one of them calls).  After every scheduling step: committed table via an independent '
         'DB-API connection, in every thread its raw thread-local slot, the raw process slot and hub.getConnection() (identity of the objects), '
         'phase/result/transaction state of every thread, the outcome of its last ordinary write.  '
-        'Non-trivial = a body with at least one write that ran to its raise or to its commit, or an ordinary write carried out; distinct = distinct (binding, table, histories, schedule).')
+        'Non-trivial = a body with at least one write that ran to its raise or to its commit, or an ordinary write carried out; distinct = distinct (binding, table, histories, schedule).  '
+        'SECOND STREAM (kind "nest", one caller, run in the main thread): the function is a TREE -- statements as above, nested try: hub.doInTransaction(inner) '
+        'except <nothing | Exception | BaseException>: pass up to depth 4, raise of a BaseException that is not an Exception (subclasses of KeyboardInterrupt / '
+        'SystemExit / GeneratorExit / BaseException, fresh objects held only weakly), hub.threadConnection = one of three DBConnections / del hub.threadConnection, '
+        'tx.commit() / tx.commit(close=True) / tx.rollback() on tx = hub.getConnection() taken when the function starts; bindings thread / process / both; random trees '
+        '(30% with hub steps -- those use only the statements that do not depend on a DBConnection\'s instance cache; del hub.threadConnection only where a process '
+        'connection remains) plus families: a nested call after EVERY prefix of the outer body x inner end (return / Exception / BaseException) x except clause x outer '
+        'end, and a BaseException after every prefix of a body.  Observed: result + exception identity, table, both slots and hub.getConnection() before / after, a log '
+        '(before every step what the hub resolves to; at every exit of a doInTransaction: is its transaction obsolete and released, does anybody hold the write lock, the '
+        'table), write lock while the caller still holds the exception, and again after it dropped it.')
 EXPLANATION = ('Theorems C08_* (Coq, all bodies / all raise points / all schedules) over Model/Hub.v, a hand model of ConnectionHub.getConnection/'
                'doInTransaction with sqlite locking between the threads\' transactions; correspondence: the model evaluated by vm_compute against '
                'the real SQLObject driven by real threads after EVERY scheduling step; the oracle judges all-or-nothing, exception identity, hub '
                'restoration and release of the transaction directly on the observations, and for histories: an ordinary write is in the '
                'committed table at once, the table changes in no other step than a returning call or a successful ordinary write (so a later '
-               'failing call leaves it exactly as it was before that call).')
+               'failing call leaves it exactly as it was before that call).  Nested calls / BaseExceptions / functions touching the hub or their transaction: '
+               'theorems C08_nest_* by induction on the function tree over the one-caller big-step model (second half of Model/Hub.v; ncall s body with s arbitrary = '
+               'every nesting depth): both hub slots after every exit path, nothing committed by a raising call without nested calls, every transaction of the nest '
+               'closed on every exit path, BaseException included (e6ce2b8), and the refuted full all-or-nothing statement for nests (finding '
+               'nested_commit_survives_outer_rollback); correspondence nagree: result, table, slots, the whole log, lock before and after the exception is dropped.')
 TRUSTED_BASE = [
     'Coq 8.16.1 kernel + vm_compute (examples, correspondence); no native_compute',
     'Model/Hub.v is hand-written after ConnectionHub.getConnection/doInTransaction/threadConnection, Transaction.__init__/commit/rollback/'
@@ -57,9 +70,19 @@ TRUSTED_BASE = [
     'scheduling granularity is one body step: a step that raises is followed in the same scheduling step by rollback and the finally clause '
     '(no other thread runs in between); finer interleavings inside a step are not explored',
     '"released" is observed as: Transaction._connection is None and the DB-API connection it held is closed or back in the parent\'s pool',
-    'outside the model: BaseExceptions that are not Exceptions; nested doInTransaction (the inner call opens an independent transaction on '
-    'another DB-API connection); commit(close=True) raising after the database commit (no cause is known any more since expire() was '
-    'repaired in 1aded16; the harness still prepares that environment -- "poison" -- in a tenth of the cases and the oracle reports it)',
+    'commit(close=True) raising after the database commit: no cause is known any more inside the modelled programs since expire() was '
+    'repaired in 1aded16 (the harness still prepares that environment -- "poison" -- in a tenth of the cases and the oracle reports it)',
+    'nested calls / BaseExceptions / hub and transaction steps are modelled for ONE caller (no other thread runs meanwhile), big-step; '
+    'nested transactions are independent DB-API connections of the same sqlite file (validated by execution: inner commit durable at once, '
+    'inner write after an outer write refused with "database is locked", destroySelf() inside a nested call raises RecursionError because '
+    'Transaction._SO_delete re-binds itself); since e6ce2b8 a BaseException is rolled back like an Exception, so nothing depends on '
+    'Transaction.__del__ any more -- the harness still holds transactions and exception objects only weakly once a call is left and '
+    'observes lock and open transactions again after the caller dropped the exception (the model says: no change)',
+    'outside the model: a function that leaves the hub WITHOUT any connection for its thread (del hub.threadConnection with no process '
+    'connection) while transactions are open -- commit / rollback then raise AttributeError out of SQLObject.expire(), which reaches for '
+    'the connection through the hub (finding rollback_raises_when_hub_left_empty, witness script); the generator never produces it.  With '
+    'hub steps only cache-independent statements are generated (a fetch through a DBConnection answers XNested in the model); expire() '
+    'going to the cache of whatever connection the hub resolves to at that moment has no effect on those',
     'the correspondence harness tools/props/c08.py and the cases.v evaluation',
 ]
 
@@ -369,7 +392,148 @@ def gen_case0(rng):
     return c
 
 
+
+# ------------------------------------------------------------------ generation: nested programs
+def gen_nstmt(rng, nrows, plain_only):
+    if plain_only:
+        return gen_plain(rng, nrows)
+    b = []
+    while not b:
+        b = gen_body(rng, nrows, maxlen=1, allow_fail=False)
+    return b[0]
+
+
+def gen_nbody(rng, nrows, depth, plain_only, hubops, maxdepth=2, allow_del=True):
+    body = []
+    for _ in range(rng.randint(0, 4 if depth == 0 else 3)):
+        r = rng.random()
+        if depth < maxdepth and r < 0.27:
+            body.append(['call', rng.choice(['none', 'none', 'exc', 'all']), gen_nbody(rng, nrows, depth + 1, plain_only, hubops, maxdepth, allow_del)])
+        elif hubops and r < 0.45:
+            # del hub.threadConnection only when the hub has a process connection to fall back to (see TRUSTED_BASE: with the hub
+            # left EMPTY, commit / rollback raise out of SQLObject.expire() -- finding rollback_raises_when_hub_left_empty)
+            body.append(['setthread', rng.randint(0, 2)] if rng.random() < 0.5 or not allow_del else ['delthread'])
+        elif r < 0.51:
+            body.append(['commit', rng.random() < 0.5])
+        elif r < 0.55:
+            body.append(['rollback'])
+        else:
+            body.append(gen_nstmt(rng, nrows, plain_only))
+    r = rng.random()
+    if r < 0.25:
+        body.insert(rng.randint(0, len(body)), ['fail', rng.randint(0, 3)])
+    elif r < 0.42:
+        body.insert(rng.randint(0, len(body)), ['base', rng.randint(0, 3)])
+    return body
+
+
+def gen_nest(rng):
+    rows = gen_rows(rng)
+    hubops = rng.random() < 0.3
+    bind = rng.choice(['thread', 'thread', 'process', 'both'])
+    return {'kind': 'nest', 'bind': bind, 'rows': rows, 'cache': rng.random() < 0.5,
+            'body': gen_nbody(rng, len(rows), 0, hubops, hubops, maxdepth=rng.choice([1, 2, 2, 3]), allow_del=bind != 'thread')}
+
+
+def nest_variants(rows, outer, inner, binds=('thread', 'process', 'both')):
+    """a nested call put after every prefix of the outer body; the inner function returns / raises an Exception / raises a
+    BaseException at its end; the outer body lets it through / catches Exception / catches everything; the outer body returns /
+    raises / raises a BaseException at its end"""
+    out = []
+    ends = ([], [['fail', 1]], [['base', 2]])
+    n = 0
+    for k in range(len(outer) + 1):
+        for iend in ends:
+            for catch in ('none', 'exc', 'all'):
+                for oend in ends:
+                    b = outer[:k] + [['call', catch, inner + iend]] + outer[k:] + oend
+                    out.append({'kind': 'nest', 'bind': binds[n % len(binds)], 'rows': rows, 'cache': n % 2 == 0, 'body': b})
+                    n += 1
+    return out
+
+
+def base_variants(rows, body):
+    """the body raising a BaseException that is not an Exception after every prefix, under each binding"""
+    out = []
+    for bind in ('thread', 'process', 'both'):
+        for k in range(len(body) + 1):
+            out.append({'kind': 'nest', 'bind': bind, 'rows': rows, 'cache': k % 2 == 0, 'body': body[:k] + [['base', k % 4]] + body[k:]})
+    return out
+
+
+def nest_corpus():
+    rows = [[1, 1, 10], [2, 2, None]]
+    out = [
+        # witness of nested_commit_survives_outer_rollback: the inner call returns, the outer function raises
+        {'kind': 'nest', 'bind': 'thread', 'rows': rows, 'cache': True,
+         'body': [['call', 'none', [['create', 7, 7]]], ['create', 8, 8], ['fail', 0]]},
+        # witness of the FIXED finding base_exception_skips_rollback (e6ce2b8): rolled back, released, lock free -- regression case
+        {'kind': 'nest', 'bind': 'process', 'rows': rows, 'cache': True, 'body': [['create', 8, 8], ['base', 1]]},
+        {'kind': 'nest', 'bind': 'thread', 'rows': rows, 'cache': True, 'body': [['base', 0]]},
+        # the outer function wrote: every write of the inner one meets its lock
+        {'kind': 'nest', 'bind': 'thread', 'rows': rows, 'cache': True,
+         'body': [['create', 8, 8], ['call', 'exc', [['create', 7, 7]]], ['hupdate', 1, 0, 5]]},
+        {'kind': 'nest', 'bind': 'thread', 'rows': rows, 'cache': False,
+         'body': [['call', 'all', [['create', 8, 8], ['base', 2]]], ['create', 9, 9]]},
+        {'kind': 'nest', 'bind': 'both', 'rows': rows, 'cache': True, 'body': [['create', 8, 8], ['delthread'], ['create', 9, 9]]},
+        {'kind': 'nest', 'bind': 'thread', 'rows': rows, 'cache': True,
+         'body': [['call', 'exc', [['hdestroy', 1]]], ['call', 'none', [['call', 'none', [['create', 3, 3], ['base', 0]]]]]]},
+        {'kind': 'nest', 'bind': 'thread', 'rows': rows, 'cache': True,
+         'body': [['create', 8, 8], ['rollback'], ['call', 'exc', [['create', 1, 1]]], ['commit', True]]},
+        {'kind': 'nest', 'bind': 'thread', 'rows': rows, 'cache': True,
+         'body': [['create', 8, 8], ['commit', False], ['create', 9, 9], ['fail', 2]]},
+        {'kind': 'nest', 'bind': 'process', 'rows': rows, 'cache': True,
+         'body': [['setthread', 2], ['create', 8, 8], ['call', 'none', [['delthread'], ['create', 9, 9]]], ['fail', 3]]},
+        {'kind': 'nest', 'bind': 'both', 'rows': rows, 'cache': True,
+         'body': [['delthread'], ['call', 'none', [['create', 9, 9], ['setthread', 2]]], ['create', 4, 4]]},
+        {'kind': 'nest', 'bind': 'thread', 'rows': rows, 'cache': True,
+         'body': [['call', 'none', [['update', 1, 0, 5], ['call', 'none', [['delete', 2]]]]]]},
+    ]
+    # found by the first thorough run (faults of model / harness, see docs/notes/C08.md): destroySelf() through an obsolete nested
+    # transaction; a swallowed exception object must not keep an outer transaction alive
+    out += [
+        {'kind': 'nest', 'bind': 'process', 'rows': [[None, 1, None]], 'cache': True,
+         'body': [['call', 'none', [['rollback'], ['hdestroy', 1], ['commit', False], ['base', 1]]], ['fail', 0]]},
+        {'kind': 'nest', 'bind': 'thread', 'rows': [[None, 1, None]], 'cache': True,
+         'body': [['call', 'exc', [['update', 1, 0, 4], ['rollback'], ['delete', 1]]], ['call', 'exc', [['rollback'], ['delete', 1]]],
+                  ['rollback'], ['hdestroy', 1]]},
+        {'kind': 'nest', 'bind': 'process', 'rows': [[5, None, None]], 'cache': False,
+         'body': [['call', 'all', [['hupdate', 1, 0, 5], ['call', 'exc', [['fail', 2], ['commit', True], ['hdestroy', 1]]], ['base', 3],
+                                   ['call', 'exc', []]]], ['fail', 0]]},
+    ]
+    out += nest_variants(rows, [['create', 3, 3], ['update', 1, 0, 9]], [['create', 5, 5], ['hupdate', 2, 1, 6]])
+    out += base_variants(rows, [['create', 3, 3], ['update', 1, 0, 9], ['delete', 2]])
+    return out
+
+
+def gen_nest_all(rng, tier):
+    n = 500 if tier == 'quick' else 5000
+    out = [gen_nest(rng) for _ in range(n)]
+    for k in range(5 if tier == 'quick' else 50):
+        rows = gen_rows(rng)
+        po = k % 4 == 3
+        outer = [gen_nstmt(rng, len(rows), po) for _ in range(rng.randint(0, 2))]
+        inner = [gen_nstmt(rng, len(rows), po) for _ in range(rng.randint(0, 2))]
+        if k % 4 == 1:
+            inner = [['call', rng.choice(['none', 'exc', 'all']), inner]]
+        binds = ('thread', 'process', 'both')
+        if po:
+            h = rng.choice([['setthread', rng.randint(0, 2)], ['delthread']])
+            outer.insert(rng.randint(0, len(outer)), h)
+            if h[0] == 'delthread':
+                binds = ('both', 'process')
+        out += nest_variants(rows, outer, inner, binds)
+    for k in range(6 if tier == 'quick' else 60):
+        rows = gen_rows(rng)
+        out += base_variants(rows, gen_body(rng, len(rows), maxlen=3, allow_fail=False))
+    return out
+
+
 def corpus():
+    return old_corpus() + nest_corpus()
+
+
+def old_corpus():
     rows = [[1, 1], [2, 2]]
     out = [
         # two writers: the second is refused at its first write, the first commits
@@ -445,6 +609,10 @@ def corpus():
 
 
 def generate(rng, tier):
+    return generate_old(rng, tier) + gen_nest_all(rng, tier)
+
+
+def generate_old(rng, tier):
     n = 1200 if tier == 'quick' else 12000
     out = [gen_case(rng) for _ in range(n)]
     for k in range(40 if tier == 'quick' else 400):
@@ -468,7 +636,7 @@ def generate(rng, tier):
 
 
 def search_cases(rng, tier):
-    out = [gen_case(rng) for _ in range(1500)]
+    out = [gen_case(rng) for _ in range(1500)] + [gen_nest(rng) for _ in range(800)]
     for _ in range(60):
         out += prefix_variants(gen_rows(rng), gen_body(rng, 3, allow_fail=False))
     for _ in range(20):
@@ -795,6 +963,322 @@ def run_case(case, workdir):
     return {'initial': initial, 'steps': steps}
 
 
+
+# ------------------------------------------------------------------ one caller: nested calls, BaseExceptions, bodies touching the hub
+# case: {'kind': 'nest', 'bind': 'thread' | 'process' | 'both', 'rows', 'cache', 'body'}; a body is a list of the steps above and
+#   ['call', 'none' | 'exc' | 'all', inner body]   try: hub.doInTransaction(inner) except <nothing / Exception / BaseException>: pass
+#   ['base', n]                                     raise a BaseException that is not an Exception (a new object)
+#   ['setthread', c] / ['delthread']                hub.threadConnection = DBConnection c / del hub.threadConnection
+#   ['commit', close] / ['rollback']                on tx = hub.getConnection() taken when the body starts
+NEST_OPS = ('call', 'base', 'setthread', 'delthread', 'commit', 'rollback')
+PLAIN_OPS = ('create', 'hupdate', 'hdestroy', 'deletemany', 'ucreate', 'uwrite', 'fail')
+_last_base = {'ref': None}
+
+
+def is_nest(case):
+    return case.get('kind') == 'nest'
+
+
+class _Tagged(object):
+    def _tag(self, n):
+        import weakref
+        self.tag = n
+        _last_base['ref'] = weakref.ref(self)
+
+
+class BaseKI(KeyboardInterrupt, _Tagged):
+    def __init__(self, n):
+        KeyboardInterrupt.__init__(self, n)
+        self._tag(n)
+
+
+class BaseSE(SystemExit, _Tagged):
+    def __init__(self, n):
+        SystemExit.__init__(self, n)
+        self._tag(n)
+
+
+class BaseGE(GeneratorExit, _Tagged):
+    def __init__(self, n):
+        GeneratorExit.__init__(self, n)
+        self._tag(n)
+
+
+class BaseBE(BaseException, _Tagged):
+    def __init__(self, n):
+        BaseException.__init__(self, n)
+        self._tag(n)
+
+
+class NestUserErr(UserErr, _Tagged):
+    """the n-th exception of the program's own -- a NEW object at every raise, which the harness holds only weakly: an object
+    kept somewhere would keep, through its traceback and the frames' f_back chain, every transaction of the nest alive"""
+    def __init__(self, n):
+        UserErr.__init__(self, 'e%d' % n)
+        self._tag(n)
+
+
+BASES = [BaseKI, BaseSE, BaseGE, BaseBE]
+
+
+def walk(body):
+    """every step of the body, at any depth"""
+    for st in body:
+        yield st
+        if st[0] == 'call':
+            for x in walk(st[2]):
+                yield x
+
+
+def nest_depth(body):
+    return 1 + max([nest_depth(st[2]) for st in body if st[0] == 'call'] or [0])
+
+
+class NestRunner(object):
+    def __init__(self, cls, hub, conns, raw, errors, held):
+        self.cls, self.hub, self.conns, self.raw, self.errors, self.held = cls, hub, conns, raw, errors, held
+        self.table = None
+        self.txs = []            # in the order they were opened: {'obj': strong ref until its call is left, 'ref': weak, 'low'}
+        self.log = []
+        self.keep = []
+        self.k_top = 0
+        self.raised = None
+
+    def token(self, c):
+        if c is None:
+            return None
+        for i, d in enumerate(self.conns):
+            if c is d:
+                return ['db', i]
+        for i, t in enumerate(self.txs):
+            if t['ref']() is c:
+                return ['tx', i]
+        return ['other']
+
+    def hubstate(self):
+        try:
+            r = self.token(self.hub.getConnection())
+        except AttributeError:
+            r = None
+        return [self.token(getattr(self.hub.threadingLocal, 'connection', None)),
+                self.token(getattr(self.hub, 'processConnection', None)), r]
+
+    def locked(self):
+        import sqlite3
+        try:
+            self.raw.execute('BEGIN IMMEDIATE')
+            self.raw.execute('ROLLBACK')
+            return False
+        except sqlite3.OperationalError:
+            return True
+
+    def snapshot(self, id0, outcome):
+        """a doInTransaction has just been left: the state of its transaction (and of those opened inside it) right now"""
+        for i in range(id0, len(self.txs)):
+            t = self.txs[i]
+            tx = t['obj']
+            if tx is None:
+                continue
+            root = tx
+            while type(root).__name__ == 'Transaction':
+                root = root._dbConnection
+            low = t['low']
+            released = tx._connection is None and low is not None and (
+                closed(low) or low in list(root._threadPool.values()) or low in list(root._pool or []))
+            if i == id0:
+                self.log.append(['exit', i, not (bool(tx._obsolete) and bool(released)), self.locked(), outcome,
+                                 [bool(tx._obsolete), bool(released)], self.table()])
+            t['obj'], t['low'] = None, None
+            del tx, low, root
+
+    def do_call(self, steps, depth):
+        id0 = len(self.txs)
+        try:
+            v = self.hub.doInTransaction(self.body, steps, depth)
+        except BaseException as e:
+            self.snapshot(id0, 'exc' if isinstance(e, Exception) else 'base')
+            return e
+        self.snapshot(id0, 'ret')
+        return ('ret', v)
+
+    def call(self, steps, catch, depth):
+        out = self.do_call(steps, depth + 1)
+        if isinstance(out, tuple):
+            return out[1]
+        if catch == 'all' or (catch == 'exc' and isinstance(out, Exception)):
+            self.raised = None
+            out = None           # the program drops the exception: frames and transactions it kept alive go
+            return []
+        try:
+            raise out
+        finally:
+            del out
+
+    def body(self, steps, depth):
+        import weakref
+        tx = self.hub.getConnection()
+        self.txs.append({'obj': tx, 'ref': weakref.ref(tx), 'low': getattr(tx, '_connection', None)})
+        self.log.append(['enter', len(self.txs) - 1, self.hubstate()[2], self.table()])
+        created = []
+        for k, st in enumerate(steps):
+            if depth == 0:
+                self.k_top = k
+            self.log.append(['step', self.hubstate()[2]])
+            try:
+                op = st[0]
+                if op == 'call':
+                    created += self.call(st[2], st[1], depth)
+                elif op == 'base':
+                    raise BASES[st[1] % 4](st[1])
+                elif op == 'setthread':
+                    self.hub.threadConnection = self.conns[st[1]]
+                elif op == 'delthread':
+                    del self.hub.threadConnection
+                elif op == 'commit':
+                    if st[1]:
+                        tx.commit(close=True)
+                    else:
+                        tx.commit()
+                elif op == 'rollback':
+                    tx.rollback()
+                elif op == 'fail':
+                    raise NestUserErr(st[1])
+                else:
+                    created += nest_stmt(self, st)
+            except BaseException as e:
+                try:
+                    self.raised = weakref.ref(e)
+                except TypeError:            # a built-in exception object (AssertionError, AttributeError, RecursionError)
+                    self.raised = e
+                raise
+        return created
+
+
+def nest_stmt(R, st):
+    """one statement through the hub (as Worker.body)"""
+    from sqlobject.dberrors import DuplicateEntryError
+    cls = R.cls
+    made = []
+    if st[0] == 'create':
+        o = cls(a=st[1], b=st[2])
+        made.append(o.id)
+        R.keep.append(o)
+    elif st[0] == 'update':
+        o = cls.get(st[1])
+        R.keep.append(o)
+        setattr(o, COLS[st[2]], st[3])
+    elif st[0] == 'delete':
+        o = cls.get(st[1])
+        R.keep.append(o)
+        o.destroySelf()
+    elif st[0] == 'hupdate':
+        setattr(R.held[st[1]], COLS[st[2]], st[3])
+    elif st[0] == 'hdestroy':
+        R.held[st[1]].destroySelf()
+    elif st[0] == 'deletemany':
+        cls.deleteMany(cls.q.id == st[1])
+    elif st[0] in ('ucreate', 'uupdate', 'uwrite'):
+        o = None
+        if st[0] == 'uupdate':
+            o = cls.get(st[2])
+            R.keep.append(o)
+        try:
+            if st[0] == 'ucreate':
+                o = cls(a=st[2], b=st[3], u=st[4])
+                made.append(o.id)
+                R.keep.append(o)
+            elif st[0] == 'uupdate':
+                o.u = st[3]
+            else:
+                R.held[st[2]].u = st[3]
+        except DuplicateEntryError:
+            if not st[1]:
+                raise
+    else:
+        raise RuntimeError('unknown step %r' % (st,))
+    return made
+
+
+NEST_EXC = dict(EXC, AssertionError='XAssert', RecursionError='XRecursion', NestUserErr='XUser')
+
+
+def run_nest(case, workdir):
+    import gc
+    import sqlite3
+    from sqlobject.sqlite.sqliteconnection import SQLiteConnection
+    cls, hub = setup_class()
+    fn = os.path.join(workdir, 't.db')
+    setupc = SQLiteConnection(fn, timeout=0)
+    cls.createTable(connection=setupc)
+    raw = sqlite3.connect(fn, timeout=0, isolation_level=None)
+    for r in case['rows']:
+        raw.execute('INSERT INTO %s (a, b, u) VALUES (?, ?, ?)' % TABLE, tuple(list(r) + [None] * (3 - len(r))))
+    setupc.close()
+    conns = [SQLiteConnection(fn, timeout=0, cache=bool(case.get('cache', True))) for _ in range(3)]
+
+    def table():
+        rows = [[r[0], [r[1], r[2], r[3]]] for r in raw.execute('SELECT id, a, b, u FROM %s ORDER BY id' % TABLE).fetchall()]
+        seq = raw.execute("SELECT seq FROM sqlite_sequence WHERE name = '%s'" % TABLE).fetchall()
+        return [rows, (seq[0][0] if seq else 0) + 1]
+
+    try:
+        if case['bind'] in ('thread', 'both'):
+            hub.threadConnection = conns[0]
+        if case['bind'] == 'process':
+            hub.processConnection = conns[0]
+        elif case['bind'] == 'both':
+            hub.processConnection = conns[1]
+        held = {}
+        for i in range(1, len(case['rows']) + 1):
+            held[i] = cls.get(i)
+        R = NestRunner(cls, hub, conns, raw, [UserErr('e%d' % i) for i in range(4)], held)
+        R.table = table
+        obs = {'table0': table(), 'hub0': R.hubstate()}
+        out = R.do_call(case['body'], 0)
+        if isinstance(out, tuple):
+            v = out[1]
+            obs['result'] = ['ret', v]
+            obs['same'] = None
+        else:
+            name = type(out).__name__
+            import weakref
+            raised = R.raised() if isinstance(R.raised, weakref.ref) else R.raised
+            obs['same'] = (raised is out) if R.raised is not None else None
+            del raised
+            if isinstance(out, Exception):
+                code = NEST_EXC.get(name, 'OTHER:' + name)
+                if code == 'XAttribute':
+                    code = 'XNoConnection'
+                n = getattr(out, 'tag', 0) if code == 'XUser' else 0
+            else:
+                code, n = 'XBase', getattr(out, 'tag', 99)
+            obs['result'] = ['exc', code, n, R.k_top]
+        obs['table'] = table()
+        obs['hub'] = R.hubstate()
+        obs['locked'] = R.locked()
+        obs['log'] = R.log
+        # the caller drops the exception
+        out = None
+        R.raised = None
+        gc.collect()
+        obs['final'] = {'locked': R.locked(),
+                        'open': [i for i, t in enumerate(R.txs) if t['ref']() is not None and not t['ref']()._obsolete],
+                        'table': table()}
+        return obs
+    finally:
+        raw.close()
+        for a in ('threadConnection', 'processConnection'):
+            try:
+                delattr(hub, a)
+            except AttributeError:
+                pass
+        for c in conns:
+            try:
+                c.close()
+            except Exception:  # noqa
+                pass
+
+
 def run_impl(cases):
     res = []
     for c in cases:
@@ -803,7 +1287,7 @@ def run_impl(cases):
                             'c08_%d_%d' % (os.getpid(), _state['n']))
         os.makedirs(work, exist_ok=True)
         try:
-            res.append(run_case(c, work))
+            res.append(run_nest(c, work) if is_nest(c) else run_case(c, work))
         except Exception as e:  # noqa
             res.append({'crash': '%s: %s' % (type(e).__name__, e)})
         finally:
@@ -886,7 +1370,60 @@ def cobs(o):
     return '{| o_table := %s; o_proc := %s; o_threads := [%s] |}' % (ctab(o['table']), cref(proc), '; '.join(cthread(t) for t in o['threads']))
 
 
+def cnbody(steps):
+    if not steps:
+        return 'NEnd'
+    st, rest = steps[0], steps[1:]
+    op = st[0]
+    if op == 'call':
+        return '(NCall %s %s %s)' % ({'none': 'KNone', 'exc': 'KExc', 'all': 'KAll'}[st[1]], cnbody(st[2]), cnbody(rest))
+    if op == 'base':
+        return '(NBase %d%%nat)' % st[1]
+    if op == 'setthread':
+        return '(NSetThread %d%%nat %s)' % (st[1], cnbody(rest))
+    if op == 'delthread':
+        return '(NDelThread %s)' % cnbody(rest)
+    if op == 'commit':
+        return '(NCommit %s %s)' % (cb(st[1]), cnbody(rest))
+    if op == 'rollback':
+        return '(NRollback %s)' % cnbody(rest)
+    return '(NStep %s %s)' % (cstep(st), cnbody(rest))
+
+
+def cnresult(r):
+    if r[0] == 'exc' and r[1] in ('XBase', 'XAssert', 'XRecursion'):
+        e = '(XBase %d%%nat)' % r[2] if r[1] == 'XBase' else r[1]
+        return '(Raised %s %d%%nat)' % (e, r[3])
+    return cresult(r)
+
+
+def nest_binding(case):
+    return {'thread': (0, None), 'process': (None, 0), 'both': (0, 1)}[case['bind']]
+
+
+def coq_nest(case, obs):
+    optn = lambda x: 'None' if x is None else '(Some %d%%nat)' % x  # noqa
+    evs = []
+    for e in obs['log']:
+        if e[0] == 'step':
+            evs.append('(EStep %s)' % cref(e[1]))
+        elif e[0] == 'exit':
+            evs.append('(EExit %d%%nat %s %s)' % (e[1], cb(e[2]), cb(e[3])))
+    slot, proc = nest_binding(case)
+    return ('(CNest {| nc_slot := %s; nc_proc := %s; nc_table := %s; nc_body := %s; nc_result := %s; nc_after := %s; '
+            'nc_slot_after := %s; nc_proc_after := %s; nc_log := [%s]; nc_locked := %s; nc_final_locked := %s; nc_final_open := [%s] |})' % (
+                optn(slot), optn(proc), ctab(obs['table0']), cnbody(case['body']), cnresult(obs['result']), ctab(obs['table']),
+                cref(obs['hub'][0]), cref(obs['hub'][1]), '; '.join(evs), cb(obs['locked']), cb(obs['final']['locked']),
+                '; '.join('%d%%nat' % i for i in obs['final']['open'])))
+
+
 def coq_case(case, obs):
+    if is_nest(case):
+        return coq_nest(case, obs)
+    return '(COld %s)' % coq_old(case, obs)
+
+
+def coq_old(case, obs):
     sched = '; '.join('(%d%%nat, %s)' % (t, cobs(o)) for t, o in zip(case['sched'], obs['steps']))
     citem = lambda it: ('(ICall [%s])' % '; '.join(cstep(s) for s in it[1])) if it[0] == 'call' else '(IPlain %s)' % cstep(it[1])  # noqa
     bodies = '; '.join('[%s]' % '; '.join(citem(it) for it in p) for p in progs(case))
@@ -956,7 +1493,84 @@ def oracle(case, obs):
     return known
 
 
+
+OLD_OPS = ('create', 'update', 'delete', 'hupdate', 'hdestroy', 'deletemany', 'ucreate', 'uupdate', 'uwrite', 'fail')
+
+
+def nest_failures(case, obs):
+    body = case['body']
+    ops = set(st[0] for st in walk(body))
+    r = obs['result']
+    log = obs['log']
+    hubpure = not ({'setthread', 'delthread'} & ops)
+    selfcommit = 'commit' in ops or not hubpure      # the function commits on its own account / writes through autocommit connections
+    raised = r[0] == 'exc'
+    # all or nothing, for the call the caller made ...
+    if raised and obs['table'] != obs['table0'] and not selfcommit:
+        yield fail(0, 'doInTransaction raised but the committed table is not the table before the call',
+                   kind='nested_commit_survives' if 'call' in ops else 'committed_but_raised', before=obs['table0'], after=obs['table'], result=r)
+    # ... and for every call inside it: one that is left with an exception and inside which no further call returned leaves the table alone
+    stack = []
+    for e in log:
+        if e[0] == 'enter':
+            stack.append([e[1], e[3], False])
+        elif e[0] == 'exit' and stack:
+            i, tb, inner_ret = stack.pop()
+            if i == e[1] and e[4] != 'ret' and not selfcommit and not inner_ret and e[6] != tb and i > 0:
+                yield fail(0, 'a nested doInTransaction raised but the committed table changed while it ran', kind='committed_but_raised', tx=i)
+            if stack and (e[4] == 'ret' or inner_ret):
+                stack[-1][2] = True
+    if not raised and ops <= set(OLD_OPS):
+        want, created, refused = replay_all(obs['table0'], body)
+        if obs['table'] != want:
+            yield fail(0, 'the table after a returning doInTransaction is not the table before plus everything the body did',
+                       kind='not_all', expected=want, actual=obs['table'])
+        if r[1] != created:
+            yield fail(0, 'the value of the body was not handed back', kind='value', expected=created, actual=r[1])
+    top = [st[0] for st in body]
+    if not raised and ('fail' in top or 'base' in top):
+        yield fail(0, 'doInTransaction returned although the body raises', kind='swallowed')
+    if obs['same'] is False:
+        yield fail(0, 'doInTransaction raised another exception object than the body', kind='other_exception')
+    if raised and r[1] in ('XUser', 'XBase'):
+        st = body[r[3]] if r[3] < len(body) else None
+        want = ['fail' if r[1] == 'XUser' else 'base', r[2]]
+        if st is None or not (st == want or (st[0] == 'call' and want in list(walk(st[2])))):
+            yield fail(0, 'not an exception the body raises at that step', kind='other_exception', result=r)
+    need = {'XAssert': {'rollback', 'commit'}, 'XRecursion': {'call'}, 'XNoConnection': {'setthread', 'delthread'}}.get(r[1] if raised else None)
+    if need is not None and not (need & ops):
+        yield fail(0, 'doInTransaction raised %s although the function does nothing that could make the transaction obsolete / '
+                      'nest calls / unbind the hub' % r[1], kind='unexpected_exception', result=r)
+    if raised and r[1].startswith('OTHER'):
+        yield fail(0, 'doInTransaction raised %s' % r[1], kind='unexpected_exception', result=r)
+    # the hub: a caller with a thread connection gets both slots back whatever the body did to them; a process-level caller the
+    # process slot (and its thread slot stays empty unless the body itself bound one)
+    if case['bind'] in ('thread', 'both') or hubpure:
+        if obs['hub'] != obs['hub0']:
+            yield fail(0, 'the hub does not hold / resolve to what it did before the call', kind='hub', expected=obs['hub0'], actual=obs['hub'])
+    elif obs['hub'][1] != obs['hub0'][1]:
+        yield fail(0, 'the process-level slot does not hold what it held before the call', kind='hub', expected=obs['hub0'], actual=obs['hub'])
+    for e in log:
+        if e[0] == 'enter' and e[2] != ['tx', e[1]]:
+            yield fail(0, 'inside its doInTransaction the hub does not resolve to the transaction of that call', kind='hub', tx=e[1], actual=e[2])
+    # released: whenever a doInTransaction is left its transaction is obsolete and the low-level connection handed back; after the
+    # outermost one nobody holds the write lock
+    for e in log:
+        if e[0] == 'exit' and (e[2] or (e[1] == 0 and e[3])):
+            yield fail(0, 'the transaction is not obsolete / its low-level connection not released / the write lock still held when doInTransaction is left',
+                       kind='not_released', tx=e[1], outcome=e[4], state=e[5], locked=e[3])
+    f = obs['final']
+    if f['locked'] or f['open']:
+        yield fail(0, 'after the caller dropped the exception a transaction is still open or the write lock held', kind='not_released', final=f)
+    if f['table'] != obs['table']:
+        yield fail(0, 'the committed table changed after doInTransaction was through', kind='partial', before=obs['table'], after=f['table'])
+
+
 def failures(case, obs):
+    if is_nest(case):
+        for f in nest_failures(case, obs):
+            yield f
+        return
     prev = obs['initial']
     slots, proc, _ = hubcfg(case)
     P = progs(case)
@@ -1059,11 +1673,29 @@ def failures(case, obs):
 
 
 def classify(case, obs, f):
-    """no open finding (commit_raises_after_commit is fixed: its witnesses stay in the corpus and must pass)"""
+    """commit_raises_after_commit (1aded16) and base_exception_skips_rollback (e6ce2b8) are fixed: their witnesses stay in the
+    corpus and must pass.  Open: nested_commit_survives_outer_rollback (and the shape of rollback_raises_when_hub_left_empty,
+    which no generated case has), both only reachable by cases of kind 'nest'"""
+    if not is_nest(case):
+        return None
+    if case['bind'] == 'thread' and any(st[0] == 'delthread' for st in walk(case['body'])) and \
+            any(e[0] == 'step' and e[1] is None for e in obs['log']) and f.get('kind') in ('other_exception', 'not_released', 'unexpected_exception'):
+        # the function left the hub empty: commit / rollback raise out of expire() (never generated; the witness of the finding)
+        return 'rollback_raises_when_hub_left_empty'
+    if f.get('kind') == 'nested_commit_survives':
+        # the outermost call raised, its own transaction was rolled back and released, and the difference is there because a
+        # nested call had returned before
+        log = obs['log']
+        top = [e for e in log if e[0] == 'exit' and e[1] == 0]
+        inner_ret = [e for e in log if e[0] == 'exit' and e[1] > 0 and e[4] == 'ret']
+        if inner_ret and top and top[-1][5] == [True, True] and inner_ret[-1][6] == obs['table']:
+            return 'nested_commit_survives_outer_rollback'
     return None
 
 
 def nontrivial(case, obs):
+    if is_nest(case):
+        return any(e[0] == 'step' for e in obs.get('log', []))
     last = obs['steps'][-1]['threads'] if obs.get('steps') else []
     for prog, th in zip(progs(case), last):
         done = calls_of(prog)[:th.get('ncalls', 1 if th['phase'] == 'done' else 0)]
@@ -1073,6 +1705,8 @@ def nontrivial(case, obs):
 
 
 def key(case):
+    if is_nest(case):
+        return ['nest', case['bind'], case['rows'], case['body'], case.get('cache')]
     return [case['mode'], case.get('slots'), case.get('proc'), case['rows'], progs(case), case['sched'], case.get('cache'), case.get('poison')]
 
 
@@ -1080,7 +1714,30 @@ def distribution(cases, obs):
     d = {'mode': {}, 'threads': {}, 'results': {}, 'bodies_by_len': {}, 'commits_with_writes': 0, 'unfinished_threads': 0,
          'histories': 0, 'calls_per_thread': {}, 'plain_results': {}, 'fail_write_fail': 0,
          'returning_bodies_with_caught_refusal_after_a_write': 0, 'raising_bodies_with_caught_refusal_after_a_write': 0}
+    nd = d['nested'] = {'cases': 0, 'bind': {}, 'depth': {}, 'results': {}, 'exits': {}, 'with_hub_steps': 0, 'with_commit_or_rollback': 0,
+                        'inner_returned_outer_raised': 0, 'base_caught_inside': 0, 'inner_refused_by_outer_lock': 0}
     for c, o in zip(cases, obs):
+        if is_nest(c):
+            if not isinstance(o, dict) or 'log' not in o:
+                continue
+            nd['cases'] += 1
+            nd['bind'][c['bind']] = nd['bind'].get(c['bind'], 0) + 1
+            dp = str(nest_depth(c['body']))
+            nd['depth'][dp] = nd['depth'].get(dp, 0) + 1
+            r = o['result']
+            name = 'return' if r[0] == 'ret' else r[1]
+            nd['results'][name] = nd['results'].get(name, 0) + 1
+            ops = set(st[0] for st in walk(c['body']))
+            nd['with_hub_steps'] += bool({'setthread', 'delthread'} & ops)
+            nd['with_commit_or_rollback'] += bool({'commit', 'rollback'} & ops)
+            exits = [e for e in o['log'] if e[0] == 'exit']
+            for e in exits:
+                k = ('top_' if e[1] == 0 else 'inner_') + e[4]
+                nd['exits'][k] = nd['exits'].get(k, 0) + 1
+            nd['inner_returned_outer_raised'] += bool(r[0] == 'exc' and any(e[1] > 0 and e[4] == 'ret' for e in exits))
+            nd['base_caught_inside'] += bool(any(e[1] > 0 and e[4] == 'base' for e in exits) and not (r[0] == 'exc' and r[1] == 'XBase'))
+            nd['inner_refused_by_outer_lock'] += bool(any(e[1] > 0 and e[4] == 'exc' and e[3] for e in exits))
+            continue
         if not isinstance(o, dict) or 'steps' not in o or not o['steps']:
             continue
         d['mode'][c['mode']] = d['mode'].get(c['mode'], 0) + 1
@@ -1126,5 +1783,9 @@ def distribution(cases, obs):
 
 
 def explain(case, obs):
+    if is_nest(case):
+        return 'one caller, %s binding, body %r: result %r, table %r -> %r, hub %r -> %r, log %r' % (
+            case['bind'], case['body'], obs.get('result'), obs.get('table0'), obs.get('table'), obs.get('hub0'), obs.get('hub'),
+            [e[:6] for e in obs.get('log', [])])
     return 'mode %s, %d threads, schedule %r; last observation %r' % (
         case['mode'], len(progs(case)), case['sched'], obs['steps'][-1] if obs.get('steps') else obs)
